@@ -22,6 +22,22 @@ CHECKS = {
     note="Trusted: TLC; fontTools glyf decompiler; cu2qu error is measured by dense sampling in the harness.",
     technique="TLA+ pipeline specification; TLC trace validation of compileTTF executions + exhaustive filter-algebra check",
     design="5 C02"),
+ "C03": dict(
+    text="makeOfficialGlyphOrder / makeUnicodeToGlyphNameMapping are transcribed in TLA+ and checked exhaustively against "
+         "the declarative order / cmap statement (all name subsets, requested orders with duplicates and unknown names, code "
+         "point assignments incl. conflicts: 5M states); every recorded compile is validated by TLC on the reloaded glyph "
+         "order, all cmap subtables, variation sequences, maxp.numGlyphs and the post/CFF name list.",
+    note="Trusted: TLC; fontTools cmap/post/CFF decompilers.",
+    technique="TLA+ order/cmap model; TLC exhaustive check + TLC validation of observed tables of real compiles",
+    design="5 C03"),
+ "C04": dict(
+    text="Metrics.tla states every derived field (side bearings, header maxima/minima/extent, long-metric count loop vs "
+         "declarative definition, font box, vertical analogue, VORG decode, OS/2 char range); TLC checks the loop "
+         "exhaustively and evaluates the formulas on the reloaded tables of every generated compile; re-save identity is an "
+         "observation the trace requires.",
+    note="Trusted: TLC; harness recomputes glyph boxes from stored outlines; fontTools recalculates some header fields on save (those are then fontTools' values, still required to be consistent).",
+    technique="TLA+ metrics model; TLC exhaustive loop check + TLC validation of observed tables of real compiles",
+    design="5 C04"),
  "C12": dict(
     text="CffOptions.tla models the option routing of the CFF path and is checked exhaustively (all 18 combinations); every "
          "combination is executed on generated sources and each trace is validated by TLC against the same source-derived "
